@@ -239,6 +239,19 @@ func YieldSpin(pt string) {
 // Scheduled reports whether a controlled run is active.
 func Scheduled() bool { return curSched.Load() != nil }
 
+// LockStuck is the panic value of a lock wait that exceeded SetLockSpinLimit.
+type LockStuck struct{ Attempts int64 }
+
+func (l LockStuck) Error() string {
+	return fmt.Sprintf("verif: lock not acquired after %d attempts (deadlock)", l.Attempts)
+}
+
+var lockSpinLimit atomic.Int64
+
+// SetLockSpinLimit bounds, in free-running mode, how many failed TryLock
+// attempts an instrumented Lock makes before it panics with LockStuck (0 = wait normally).
+func SetLockSpinLimit(n int64) { lockSpinLimit.Store(n) }
+
 // TryLocker is what Lock needs (sync.Mutex has it since go1.18).
 type TryLocker interface {
 	TryLock() bool
@@ -250,6 +263,19 @@ type TryLocker interface {
 func Lock(m TryLocker) {
 	if curSched.Load() == nil {
 		jitter()
+		if lim := lockSpinLimit.Load(); lim > 0 {
+			// free-running workload with a logical bound on lock waits: a wait
+			// of this many failed attempts (each followed by a Gosched) while
+			// legitimate holders keep the lock for microseconds means the lock
+			// will never be released
+			for n := int64(0); !m.TryLock(); n++ {
+				if n > lim {
+					panic(LockStuck{n})
+				}
+				runtime.Gosched()
+			}
+			return
+		}
 		if tickBudget.Load() > 0 {
 			// a host call is being monitored under a loop-tick budget: waiting
 			// for a lock counts as looping, so that a self-deadlock (a lock
